@@ -135,7 +135,7 @@ def genUniqGroups (aIds : List String) (b : List Group) : Option (List Group) :=
 
 /-! ### Sorting and comparing rules -/
 
-def sortAddrs (l : List String) : List String := isort (fun a b => decide (a ≤ b)) l
+def sortAddrs (l : List String) : List String := isort (fun a b => compare a b != .gt) l
 def sortGroups (gs : List Group) : List Group := gs.map fun g => { g with addrs := sortAddrs g.addrs }
 
 def firstAddr (g : Group) : String := g.addrs.headD ""
